@@ -47,7 +47,8 @@ func c10Shapes(c *core.Ctx) []hshape {
 	if c.Thorough() {
 		return histShapes
 	}
-	return []hshape{histShapes[0], histShapes[2], histShapes[3], histShapes[len(histShapes)-1]}
+	// two literals, glob, shared file, generated input, chain of three
+	return []hshape{histShapes[0], histShapes[2], histShapes[3], histShapes[len(histShapes)-2], histShapes[len(histShapes)-1]}
 }
 
 func c10StatesPerShape(c *core.Ctx) int { return c.Q(12, 60) }
@@ -317,6 +318,11 @@ func c10Continuations(shape hshape, st hstate) [][]hop {
 	}
 	run := hop{Kind: "run", Tasks: all}
 	conts := [][]hop{{run}, {run, run}}
+	var fails []string
+	for _, t := range shape.Tasks {
+		fails = append(fails, t.Name+".0")
+	}
+	failing := hop{Kind: "run", Tasks: all, Fail: strings.Join(fails, ",")}
 	for _, f := range shape.Files {
 		cur, exists := st.Files[f]
 		other := "v1"
@@ -329,6 +335,12 @@ func c10Continuations(shape hshape, st hstate) [][]hop {
 			revert := hop{Kind: "write", File: f, Value: cur}
 			conts = append(conts, []hop{edit, run, revert, run})
 			conts = append(conts, []hop{edit, revert, run})
+		}
+		// a failing run on a third content in between, then back to either known content
+		third := hop{Kind: "write", File: f, Value: "v3"}
+		conts = append(conts, []hop{third, failing, edit, run})
+		if exists {
+			conts = append(conts, []hop{third, failing, hop{Kind: "write", File: f, Value: cur}, run})
 		}
 	}
 	return conts
@@ -410,7 +422,8 @@ func c10RunCont(c *core.Ctx, sb *sandbox, k c10case, post hstate, via string) (v
 			// spok stopped with an error: it must be an explicit error about the cache
 			// (or about a missing dependency file) and nothing may have run before it that was skipped wrongly
 			lower := strings.ToLower(o.Err)
-			explicit := strings.Contains(lower, "cache") || strings.Contains(lower, "could not get hash result") || strings.Contains(lower, "no such file")
+			explicit := strings.Contains(lower, "cache") || strings.Contains(lower, "could not get hash result") || strings.Contains(lower, "no such file") ||
+				(op.Fail != "" && strings.Contains(lower, "exited with status")) // a command that was told to fail
 			if !explicit {
 				vs = append(vs, core.Violation{Property: "C10", Clause: "explicit-cache-error", Detail: fmt.Sprintf("continuation step %d (%s) failed with an error that does not mention the cache: %s", i, op, core.Trunc(o.Err, 300))})
 				return
@@ -456,7 +469,7 @@ func c10Run(c *core.Ctx) bool {
 		"evaluations":                     res.Evaluations + res.Counters["continuations"],
 		"faults_injected":                 res.Evaluations,
 		"distinct_nontrivial":             distinct,
-		"rule":                            "for reachable crash-free project states (breadth-first to depth 3/4 on 4/8 shapes, a seeded selection preferring states with recorded digests) and the runs {all tasks, all tasks --force(, last task)}: one recorded pass lists the hook points hit (run.*, cache.*, hash.*); the run is then repeated by the real binary with SIGKILL at every point index, with `kill -9 $$` in every command position, and with byte-prefixes of every cache content it writes installed as cache.json (quick: lengths 0, 1, every 8th, len-1; thorough: all); each damaged state is followed by continuations {run; run run; edit run; edit run revert run; edit revert run} per file, judged by the cache model (C01 clause). evaluations = faults injected + continuations executed; non-trivial = distinct (scenario, continuation) pairs executed after a fault that took effect",
+		"rule":                            "for reachable crash-free project states (breadth-first to depth 3/4 on 5/11 shapes, a seeded selection preferring states with recorded digests) and the runs {all tasks, all tasks --force(, last task)}: one recorded pass lists the hook points hit (run.*, cache.*, hash.*); the run is then repeated by the real binary with SIGKILL at every point index, with `kill -9 $$` in every command position, and with byte-prefixes of every cache content it writes installed as cache.json (quick: lengths 0, 1, every 8th, len-1; thorough: all); each damaged state is followed by continuations {run; run run; edit run; edit run revert run; edit revert run; third-content failing-run edit/revert run} per file, judged by the cache model (C01 clause). evaluations = faults injected + continuations executed; non-trivial = distinct (scenario, continuation) pairs executed after a fault that took effect",
 		"samples":                         res.Samples,
 		"counters":                        res.Counters,
 		"crash_points_reached":            res.SetValues("crash_points"),
